@@ -7,6 +7,21 @@ import PromVerif.Lemmas.RegistryDict
 namespace PromVerif.Model.Registry
 open PromVerif.Py PromVerif.Spec.Registry
 
+/-! ### `_get_names` computes the claims of the statement -/
+
+theorem suffixesOf_eq (t : MType) : suffixesOf t = suffixes t := by
+  cases t <;> decide
+
+theorem getNames_eq_claims (ad : Bool) (c : Collector) : getNames ad c = claims ad c := by
+  unfold getNames claims
+  cases described ad c with
+  | none => rfl
+  | some ms =>
+    simp only [familyClaims]
+    congr 1
+    funext m
+    rw [suffixesOf_eq]
+
 /-! ### `setAll` (the insertion loop of `register`) -/
 
 theorem mem_setAll (o : Owner) (names : List Name) (d : List (Name × Owner)) (a : Name) (b : Owner) :
